@@ -8,6 +8,7 @@ Oracle: (a) closure vs the generator's own graph, (b) entry-point class == whole
 (c) cyclic => E2PyclParserException for the whole file and for every entry on or upstream of the cycle.
 """
 import json
+import os
 
 from .. import env
 from .. import wbk
@@ -270,6 +271,8 @@ def run_spec(spec, rec=None):
 
 
 def run_case(spec):
+    if 'ring' in spec:
+        return run_ring(spec)
     return run_spec(spec)
 
 
@@ -343,7 +346,7 @@ def strategy():
             _, _, edges = analyse(out)
             u = draw(st.sampled_from(fnodes))
             down = sorted(j for j in reach(edges, u) if nodes[j].get('f'))
-            how = draw(st.sampled_from(['self', 'back', 'back', 'range', 'if-untaken']))
+            how = draw(st.sampled_from(['self', 'back', 'back', 'range', 'if-untaken', 'iferror-guarded', 'iferror-fallback', 'in-function']))
             if how == 'self' or not down:
                 v = u
             else:
@@ -357,6 +360,12 @@ def strategy():
                 text = f"={old}+SUM({pfx}{L(nu['c'])}{nu['r']}:{L(nu['c'] + 1)}{nu['r']})"
             elif how == 'if-untaken':
                 text = f"=IF(1>0,{old},{target})"
+            elif how == 'iferror-guarded':
+                text = f"=IFERROR({old}+{target},0)"
+            elif how == 'iferror-fallback':
+                text = f"=IFERROR({old},{target})"
+            elif how == 'in-function':
+                text = f"=ROUND(MAX({old},{target}),0)"
             else:
                 text = f"={old}+{target}"
             maxrow = [6] * nsheets
@@ -372,10 +381,56 @@ NSHARD = 16
 
 def plan(tier):
     n = 60 if tier == 'quick' else 700
-    return [{'kind': 'hyp', 'shard': i, 'examples': n} for i in range(NSHARD)]
+    sizes = list(range(1, 41)) + [48, 64, 65, 80, 100] if tier == 'quick' else list(range(1, 131))
+    return [{'kind': 'hyp', 'shard': i, 'examples': n} for i in range(NSHARD)] + \
+           [{'kind': 'ring', 'shard': 100 + i, 'sizes': sizes[i::4]} for i in range(4)]
+
+
+def ring_model(n, via):
+    """n formula cells B1..Bn, each referring to the next one, the last one back to the first"""
+    cells = {'A1': 1}
+    for i in range(1, n + 1):
+        nxt = f'B{i + 1}' if i < n else 'B1'
+        cells[f'B{i}'] = {'add': f'={nxt}+1', 'sum': f'=SUM({nxt}:{nxt},A1)', 'if': f'=IF(A1>0,{nxt},0)', 'iferror': f'=IFERROR({nxt}+1,0)'}[via]
+    cells['C1'] = '=B1*2'
+    return {'sheets': [{'title': 'S', 'cells': cells}]}
+
+
+def run_ring(case, rec=None):
+    n, via = case['ring'], case['via']
+    path = wbk.write_xlsx(ring_model(n, via))
+    fails = []
+    try:
+        for entry in [None, ('S', 'B', '1'), ('S', 'B', str(max(1, n // 2))), ('S', 'B', str(n)), ('S', 'C', '1')]:
+            o = wbk.outcome(lambda: wbk.translate_path(path, entry=entry), timeout=wbk.CALL_TIMEOUT * 4)
+            if rec:
+                rec.case({'ring': n, 'via': via, 'entry': entry}, n >= 3, ['cyclic', f'cycle:ring:{via}', 'ring:' + ('<=32' if n <= 32 else '>32'), 'reaches-cycle'],
+                         sample={'ring': n, 'via': via, 'entry': entry})
+            if o[0] == 'timeout':
+                continue
+            if not (o[0] == 'lib' and o[1] == 'E2PyclParserException'):
+                fails.append({'case': case, 'expected': 'E2PyclParserException', 'actual': wbk.show_outcome(o) if o[0] != 'value' else 'translated',
+                              'relation': 'cyclic-workbook-rejected', 'bucket': f'ring:{via}:' + (o[1] if o[0] != 'value' else 'accepted'),
+                              'extra': {'entry': entry}})
+                break
+        return fails
+    finally:
+        try:
+            os.unlink(path)
+        except OSError:
+            pass
 
 
 def run_shard(spec, rec):
+    if spec['kind'] == 'ring':
+        for n in spec['sizes']:
+            for via in ('add', 'sum', 'if', 'iferror'):
+                if rec.out_of_time():
+                    return
+                for f in run_ring({'ring': n, 'via': via}, rec):
+                    rec.fail(**f)
+        return
+
     def body(s):
         for f in run_spec(s, rec):
             rec.fail(**f)
@@ -383,6 +438,10 @@ def run_shard(spec, rec):
 
 
 def shrink_candidates(spec):
+    if 'ring' in spec:
+        if spec['ring'] > 1:
+            yield {**spec, 'ring': spec['ring'] - 1}
+        return
     # restrict to the failing entry first, then drop unreferenced nodes from the end
     if not spec.get('entries'):
         fn = [i for i, n in enumerate(spec['nodes']) if n.get('f')]
